@@ -247,6 +247,8 @@ fn run_ring(dec: Dec, opts: &RunOpts) -> RunOut {
     let single = d.chance(K::Cfg, 1, 2);
     let sqe128 = d.chance(K::Cfg, 1, 4);
     let cqe32 = d.chance(K::Cfg, 1, 4);
+    // with a kernel-side poller the wrapper reads the head with acquire and publishes with release
+    let sqpoll = d.chance(K::Cfg, 1, 4);
     let start = match d.choose(K::Cfg, 4) {
         0 => 0,
         1 => u32::MAX - d.choose(K::Cfg, 24),
@@ -275,6 +277,9 @@ fn run_ring(dec: Dec, opts: &RunOpts) -> RunOut {
             }
             if cqe32 {
                 flags = flags | IoUringParamFlags::IORING_SETUP_CQE32;
+            }
+            if sqpoll {
+                flags = flags | IoUringParamFlags::IORING_SETUP_SQPOLL;
             }
             let mut ring = match rusl::io_uring::setup_io_uring(requested, flags, 0, 0) {
                 Ok(r) => r,
@@ -318,6 +323,10 @@ fn run_ring(dec: Dec, opts: &RunOpts) -> RunOut {
                             None => {
                                 steps_done.push("app: no slot".into());
                                 counters.push(("probe.sq_full_reported", 1));
+                                if outstanding_before < sq_entries as usize {
+                                    // not a violation of the statement (nothing is lost or duplicated), reported as reach
+                                    counters.push(("probe.sq_no_slot_although_one_is_free", 1));
+                                }
                             }
                         }
                     }
